@@ -143,9 +143,10 @@ def oracleElemwise {α : Type} [JCodec α] [BEq α] (key : String) (r : Req) : L
   | .error _ => .error .other
 
 /-- stand-in for the chain kernel that ECHOES what it was called with (so that the arguments built by the translated wrapper are
-compared with what the real wrapper passed): `[start, steps] ++ ⌊1024·cummat⌋ (row-major) ++ perm (row-major)` -/
+compared with what the real wrapper passed): `[start, steps] ++ ⌊1024·cummat + 1/2⌋ (row-major) ++ perm (row-major)` — rounded to the NEAREST 1/1024 so that a
+float cumulative sum of 1 − 2⁻⁵³ and the exact sum 1 give the same code -/
 def oracleEchoCummat (_key : String) (_r : Req) : (List (List Rat) × List (List Int)) → Int → Int → Py (List Int) := fun cm start steps =>
-  .ok ([start, steps] ++ (cm.1.flatten.map (fun x => (x * 1024).floor)) ++ cm.2.flatten)
+  .ok ([start, steps] ++ (cm.1.flatten.map (fun x => (x * 1024 + 1 / 2).floor)) ++ cm.2.flatten)
 
 /-- the same for an oracle of two arguments -/
 def oracleConst2 {α β ζ : Type} [JCodec ζ] (key : String) (r : Req) : α → β → Py ζ := fun _ _ =>
